@@ -116,7 +116,9 @@ fn decode_inner(buf: &mut BytesMut) -> Result<Option<(RequestId, (Tag, Vec<Contr
         .and_then(|t| t.expect_primitive())
     {
         Some(msgid) => match parse_uint(msgid.as_slice()) {
-            Ok((_, id)) => id as i32,
+            // MessageID ::= INTEGER (0 .. maxInt): a wider value must not be truncated into
+            // the ID of some other, outstanding operation
+            Ok((_, id)) if id <= i32::MAX as u64 => id as i32,
             _ => return Err(decoding_error),
         },
         None => return Err(decoding_error),
